@@ -208,7 +208,9 @@ impl<Key> CacheWeight<Key>
     }
 
     pub(crate) fn add(&self, key_description: &KeyDescription<Key>) {
+        #[cfg(cached_verif)] crate::cache::verif::point("K_AddKw", key_description.id as i64);
         self.key_weights.insert(key_description.id, WeightedKey::new(key_description.clone_key(), key_description.hash, key_description.weight));
+        #[cfg(cached_verif)] crate::cache::verif::point("K_AddUsed", key_description.id as i64);
         let mut guard = self.weight_used.write();
         *guard += key_description.weight;
 
@@ -216,6 +218,7 @@ impl<Key> CacheWeight<Key>
     }
 
     pub(crate) fn update(&self, key_id: &KeyId, weight: Weight) -> bool {
+        #[cfg(cached_verif)] crate::cache::verif::point("K_Update", *key_id as i64);
         if let Some(mut existing) = self.key_weights.get_mut(key_id) {
             {
                 let mut guard = self.weight_used.write();
@@ -235,12 +238,15 @@ impl<Key> CacheWeight<Key>
 
     pub(crate) fn delete<DeleteHook>(&self, key_id: &KeyId, delete_hook: &DeleteHook)
         where DeleteHook: Fn(Key) {
+        #[cfg(cached_verif)] crate::cache::verif::point("K_DelKw", *key_id as i64);
         if let Some(weight_by_key_hash) = self.key_weights.remove(key_id) {
+            #[cfg(cached_verif)] crate::cache::verif::point("K_DelUsed", *key_id as i64);
             let mut guard = self.weight_used.write();
             *guard -= weight_by_key_hash.1.weight;
             delete_hook(weight_by_key_hash.1.key);
 
             self.stats_counter.remove_weight(weight_by_key_hash.1.weight as u64);
+            #[cfg(cached_verif)] crate::cache::verif::event("released", &[*key_id as i64, weight_by_key_hash.1.weight]);
         }
     }
 
@@ -272,6 +278,30 @@ impl<Key> CacheWeight<Key>
             let difference = existing_weight - new_weight;
             self.stats_counter.add_weight(!(difference - 1) as u64);
         }
+    }
+}
+
+#[cfg(cached_verif)]
+impl<'a, Key, Freq> FrequencyCounterBasedMinHeapSamples<'a, Key, Freq>
+    where Freq: Fn(KeyHash) -> FrequencyEstimate {
+    /// [id, estimate, weight]* of the keys currently in the sample (heap order, i.e. unspecified)
+    pub(crate) fn verif_dump(&self) -> Vec<i64> {
+        self.sample.iter().flat_map(|key| [key.id as i64, key.estimated_frequency as i64, key.weight]).collect()
+    }
+}
+
+#[cfg(cached_verif)]
+impl<Key> CacheWeight<Key>
+    where Key: Hash + Eq + Send + Sync + Clone + 'static, {
+    pub(crate) fn verif_weight_used(&self) -> Option<Weight> { self.weight_used.try_read().map(|guard| *guard) }
+
+    pub(crate) fn verif_entries(&self, key_fn: &dyn Fn(&Key) -> i64) -> Vec<crate::cache::verif::WeightEntry> {
+        self.key_weights.iter().map(|pair| crate::cache::verif::WeightEntry {
+            id: *pair.key(),
+            key: key_fn(&pair.value().key),
+            hash: pair.value().key_hash,
+            weight: pair.value().weight,
+        }).collect()
     }
 }
 
